@@ -31,6 +31,7 @@ META['explanation'] += ' ' + 'R9: explicit rejections against the reviewed table
 META['explanation'] += ' ' + "R11: the curve parameter of EdDSA keys per algorithm name (RFC 8709), by evaluation. R12: the SEC1 point of ECDSA keys evaluated for coordinates with leading zero octets, with the dependency's octet_bit_string modelled as asn1crypto's from_coords. The name-list table holds lists with an empty name in every position (must be refused)."
 
 META['explanation'] += ' ' + 'R13: what the composer hands to a primitive is the stored attribute, never a constant in its place. R14: algorithm names of the name-lists are matched exactly (shared with C10.R10). R15: the subtags a language tag accepts are those of RFC 3066 (evaluated setters).'
+META['explanation'] += ' ' + 'R16: no de-duplication (set / mapping round trip, membership guarded append) in functions of the SSH and common modules outside the parse functions (shared with C10.R16).'
 MODULES = {'cryptoparser.ssh.record', 'cryptoparser.ssh.subprotocol', 'cryptoparser.ssh.key'}
 HERE = os.path.dirname(os.path.dirname(os.path.abspath(__file__)))
 
